@@ -23,11 +23,13 @@
 EXTENDS Integers, Sequences, FiniteSets, TLC, Rational, Dim, Json, IOUtils
 
 \* The name table is regenerated from the tree under test on every run (ASCII JSON; names travel by index):
-\* a sequence of records [cls, atom, alt, dim, off, kind, neg], one per name spelling.
+\* a sequence of records [cls, atom, alt, dim, off, kind, neg, lg], one per name spelling
+\* (lg = 1000 x log10 of the scale, rounded: the magnitude class of a tree is decided here, not in Python).
 Names == JsonDeserialize(IOEnv.NAMES)
 \* numeric coefficients (positive rationals) and exponents (non-zero rationals) of the generated trees
 Coefs == << <<2, 1>>, <<5, 2>>, <<1000, 1>>, <<1, 4>> >>
-Exps == << <<-1, 1>>, <<1, 2>>, <<2, 1>>, <<-3, 2>>, <<1, 3>>, <<3, 1>>, <<-2, 1>>, <<2, 3>>, <<-1, 2>>, <<3, 4>> >>
+\* (entries 11.. are the large integer exponents of the magnitude instance)
+Exps == << <<-1, 1>>, <<1, 2>>, <<2, 1>>, <<-3, 2>>, <<1, 3>>, <<3, 1>>, <<-2, 1>>, <<2, 3>>, <<-1, 2>>, <<3, 4>>, <<7, 1>>, <<14, 1>>, <<-14, 1>>, <<19, 1>>, <<13, 1>>, <<-13, 1>>, <<103, 1>> >>
 
 \* ---------------------------------------------------------------- encoding
 MUL == 1
@@ -103,6 +105,26 @@ EvDim(a, i) ==
 DimOfAst(a) == EvDim(a, 1).d
 DimOk(a) == EvDim(a, 1).ok
 IsSingleName(a) == Len(a) = 1 /\ IsNameTok(a[1])
+\* magnitude: 1000 x log10(scale) of every subtree; a tree is EXTREME when some subtree's scale leaves (or comes
+\* within ~18 decades of) the range of a double - there the scale of [[e]] is inf / 0 / nan-prone and only
+\* totality, agreement of the spellings and re-readability are demanded, not a numeric scale.
+LgLimit == 290000
+RECURSIVE EvLg(_, _)
+EvLg(a, i) ==
+  LET t == a[i] IN
+  IF IsNameTok(t) THEN [lg |-> Names[NameOf(t)].lg, ext |-> FALSE, nx |-> i + 1]
+  ELSE IF IsCoefTok(t) THEN [lg |-> 0, ext |-> FALSE, nx |-> i + 1]
+  ELSE IF t = MUL \/ t = DIV THEN
+    LET l == EvLg(a, i + 1)
+        r == EvLg(a, l.nx)
+        v == IF t = MUL THEN l.lg + r.lg ELSE l.lg - r.lg IN
+    [lg |-> v, ext |-> l.ext \/ r.ext \/ v > LgLimit \/ v < -LgLimit, nx |-> r.nx]
+  ELSE
+    LET q == IF t = SQRT THEN Half ELSE ExpOf(t)
+        x == EvLg(a, i + 1)
+        v == (x.lg * q[1]) \div q[2] IN
+    [lg |-> v, ext |-> x.ext \/ v > LgLimit \/ v < -LgLimit, nx |-> x.nx]
+Extreme(a) == EvLg(a, 1).ext
 DimlessId == 9999  \* stands for the symbol "dimensionless" in observed vectors
 \* every exponent of the monomial small enough for the 32-bit pipeline
 SmallVec(v) == \A i \in DOMAIN v : v[i][2] < 1000 /\ v[i][2] > -1000 /\ v[i][3] < 1000
@@ -137,16 +159,27 @@ Good(a) == BitsOk(a) /\ ~(HasNegName(a) /\ HasFracPow(a)) /\ ~Irrational(a) /\ D
 \*   expo "rat" | "float"     x**(3/2) | x**1.5 (dyadic exponents and coefficients only)
 \*   sq   "sqrt" | "half" | "float"   sqrt(x) | x**(1/2) | x**0.5
 \*   alt  BOOLEAN             use the alternative spelling of every name (unicode <-> ASCII, alias word)
+\*   ef   0 | 3..12          exponent / coefficient FORM (0: as `expo` says).  Every rational p = n/d in every
+\*        syntactic position: 3 "(1.5)"  4 "( 1.5 )"  5 "((1.5))"  6 ".5" / "-.5" bare  7 "(.5)"  8 "15e-1" bare
+\*        9 "(15e-1)"  10 sign outside "-(1.5)" / "+(1.5)"  11 "(3/2.0)"  12 "((3)/(2))"; sqrt(x) is spelled
+\*        x**<1/2 in that form>, coefficients take the same form.  Non-dyadic p (thirds) only have 11 and 12.
+BaseStyle == [sp |-> "", par |-> "min", div |-> "slash", inv |-> "negexp", expo |-> "rat", sq |-> "sqrt", alt |-> FALSE, ef |-> 0]
 Styles == <<
-  [sp |-> "",  par |-> "full", div |-> "slash",  inv |-> "negexp", expo |-> "rat",   sq |-> "sqrt",  alt |-> FALSE],
-  [sp |-> " ", par |-> "min",  div |-> "slash",  inv |-> "negexp", expo |-> "rat",   sq |-> "sqrt",  alt |-> FALSE],
-  [sp |-> "",  par |-> "min",  div |-> "negpow", inv |-> "negexp", expo |-> "rat",   sq |-> "half",  alt |-> FALSE],
-  [sp |-> "",  par |-> "min",  div |-> "slash",  inv |-> "over",   expo |-> "rat",   sq |-> "sqrt",  alt |-> FALSE],
-  [sp |-> "",  par |-> "min",  div |-> "slash",  inv |-> "negexp", expo |-> "float", sq |-> "float", alt |-> FALSE],
-  [sp |-> " ", par |-> "min",  div |-> "slash",  inv |-> "negexp", expo |-> "rat",   sq |-> "sqrt",  alt |-> TRUE],
-  [sp |-> " ", par |-> "full", div |-> "negpow", inv |-> "over",   expo |-> "float", sq |-> "half",  alt |-> TRUE]
+  [BaseStyle EXCEPT !.par = "full"],
+  [BaseStyle EXCEPT !.sp = " "],
+  [BaseStyle EXCEPT !.div = "negpow", !.sq = "half"],
+  [BaseStyle EXCEPT !.inv = "over"],
+  [BaseStyle EXCEPT !.expo = "float", !.sq = "float"],
+  [BaseStyle EXCEPT !.sp = " ", !.alt = TRUE],
+  [BaseStyle EXCEPT !.sp = " ", !.par = "full", !.div = "negpow", !.inv = "over", !.expo = "float", !.sq = "half", !.alt = TRUE],
+  [BaseStyle EXCEPT !.ef = 3, !.sq = "form"], [BaseStyle EXCEPT !.ef = 4, !.sq = "form"], [BaseStyle EXCEPT !.ef = 5, !.sq = "form"],
+  [BaseStyle EXCEPT !.ef = 6, !.sq = "form"], [BaseStyle EXCEPT !.ef = 7, !.sq = "form"], [BaseStyle EXCEPT !.ef = 8, !.sq = "form"],
+  [BaseStyle EXCEPT !.ef = 9, !.sq = "form"], [BaseStyle EXCEPT !.ef = 10, !.sq = "form"], [BaseStyle EXCEPT !.ef = 11, !.sq = "form"],
+  [BaseStyle EXCEPT !.ef = 12, !.sq = "form"]
 >>
 NStyles == Len(Styles)
+PlainStyles == <<1, 2, 3, 4, 5, 6, 7>>
+FormStyles == <<1, 5, 8, 9, 10, 11, 12, 13, 14, 15, 16, 17>>
 
 Par(s) == "(" \o s \o ")"
 \* decimal spelling of a dyadic rational (denominator 1, 2 or 4), sign included
@@ -156,11 +189,33 @@ DecAbs(n, d) == IF d = 1 THEN ToString(n) \o ".0"
                 ELSE ToString(n \div 4) \o (IF n % 4 = 1 THEN ".25" ELSE ".75")
 Dec(q) == IF q[1] < 0 THEN "-" \o DecAbs(-q[1], q[2]) ELSE DecAbs(q[1], q[2])
 RatStr(q) == IF q[2] = 1 THEN ToString(q[1]) ELSE ToString(q[1]) \o "/" \o ToString(q[2])
-\* spelling of an exponent after "**" (a bare negative integer is legal there)
-ExpStr(q, st) == IF st.expo = "float" /\ DecOk(q) /\ q[2] # 1 THEN Dec(q)
+ShortAbs(n, d) == IF n < d /\ d = 2 THEN ".5" ELSE IF n < d /\ d = 4 THEN (IF n = 1 THEN ".25" ELSE ".75") ELSE DecAbs(n, d)
+SciAbs(n, d) == IF d = 1 THEN ToString(n) \o "e0" ELSE IF d = 2 THEN ToString(n * 5) \o "e-1" ELSE ToString(n * 25) \o "e-2"
+\* a rational in form ef (sign included); q = <<n, d>>
+FormStr(q, ef) ==
+  LET neg == q[1] < 0
+      n == IF neg THEN -q[1] ELSE q[1]
+      d == q[2]
+      sg == IF neg THEN "-" ELSE "" IN
+  IF ef = 11 THEN "(" \o ToString(q[1]) \o (IF d = 1 THEN ".0)" ELSE "/" \o ToString(d) \o ".0)")
+  ELSE IF ef = 12 THEN (IF d = 1 THEN "((" \o ToString(q[1]) \o "))" ELSE "((" \o ToString(q[1]) \o ")/(" \o ToString(d) \o "))")
+  ELSE IF ~DecOk(q) THEN Par(RatStr(q))
+  ELSE IF ef = 3 THEN "(" \o sg \o DecAbs(n, d) \o ")"
+  ELSE IF ef = 4 THEN "( " \o sg \o DecAbs(n, d) \o " )"
+  ELSE IF ef = 5 THEN "((" \o sg \o DecAbs(n, d) \o "))"
+  ELSE IF ef = 6 THEN sg \o ShortAbs(n, d)
+  ELSE IF ef = 7 THEN "(" \o sg \o ShortAbs(n, d) \o ")"
+  ELSE IF ef = 8 THEN sg \o SciAbs(n, d)
+  ELSE IF ef = 9 THEN "(" \o sg \o SciAbs(n, d) \o ")"
+  ELSE (IF neg THEN "-" ELSE "+") \o "(" \o DecAbs(n, d) \o ")"
+\* spelling of an exponent after "**" (a bare negative number is legal there)
+ExpStr(q, st) == IF st.ef # 0 THEN FormStr(q, st.ef)
+                 ELSE IF st.expo = "float" /\ DecOk(q) /\ q[2] # 1 THEN Dec(q)
                  ELSE IF q[2] = 1 THEN ToString(q[1]) ELSE Par(RatStr(q))
 NameStr(k, st) == "{" \o ToString(IF st.alt THEN Names[k].alt ELSE k) \o "}"
-CoefStr(c, st) == IF c[2] = 1 THEN ToString(c[1])
+\* (form 10 "+(2.5)" as a coefficient would be a unary plus: written "(2.5)" there)
+CoefStr(c, st) == IF st.ef # 0 THEN FormStr(c, IF st.ef = 10 THEN 3 ELSE st.ef)
+                  ELSE IF c[2] = 1 THEN ToString(c[1])
                   ELSE IF st.expo = "float" /\ DecOk(c) THEN Dec(c) ELSE Par(RatStr(c))
 \* precedence levels of a rendered string: 4 atom, 3 power, 2 product/quotient
 Wrap(r, need, st) == IF st.par = "full" \/ r.lvl < need THEN Par(r.s) ELSE r.s
@@ -187,11 +242,12 @@ Ren(a, i, st) ==
   ELSE IF t = SQRT THEN
     LET x == Ren(a, i + 1, st) IN
     IF st.sq = "sqrt" THEN [s |-> "sqrt(" \o x.s \o ")", lvl |-> 4, nx |-> x.nx]
+    ELSE IF st.sq = "form" THEN [s |-> Wrap(x, 4, st) \o "**" \o ExpStr(Half, st), lvl |-> 3, nx |-> x.nx]
     ELSE IF st.sq = "float" THEN [s |-> Wrap(x, 4, st) \o "**0.5", lvl |-> 3, nx |-> x.nx]
     ELSE [s |-> Wrap(x, 4, st) \o "**(1/2)", lvl |-> 3, nx |-> x.nx]
   ELSE RenPow(Ren(a, i + 1, st), ExpOf(t), st)
 Render(a, j) == Ren(a, 1, Styles[j]).s
-Spellings(a) == [j \in 1..NStyles |-> Render(a, j)]
+Spellings(a, sts) == [j \in DOMAIN sts |-> Render(a, sts[j])]
 
 \* ------------------------------------------------- tree generation
 Leaves(GN, GC) == {<<NameTok(k)>> : k \in GN} \cup {<<CoefTok(c)>> : c \in GC}
@@ -364,12 +420,14 @@ RegKinds == <<"default", "user", "userpfx", "usermod", "modify", "modifyq", "rea
 DefaultName(rk) == rk \in {"default", "modify", "modifyq", "readd", "mixed"}   \* S is a key of the default table
 Revalued(rk) == rk \in {"modify", "modifyq", "readd", "mixed"}                 \* ... with a value of the registry's own
 Prefixable(rk) == rk \in {"default", "userpfx", "modifyq", "readd"}
-Forms == <<"S", "S**2", "S/s", "kS">>
+\* "MS**14": the mega-prefixed symbol to the 14th power, built by unit arithmetic (M S)**7 * (M S)**7 - a scale beyond
+\* the range of a double for pc
+Forms == <<"S", "S**2", "S/s", "kS", "MS**14">>
 Carriers == <<"array", "quantity", "unit">>
 Routes == <<"pickle2", "pickle3", "pickle4", "pickle5", "savetxt", "string", "hdf5">>
 IsPickle(rt) == rt \in {"pickle2", "pickle3", "pickle4", "pickle5"}
 PersistCase(rk, f, ca, rt) ==
-  /\ (f = "kS" => Prefixable(rk))
+  /\ (f \in {"kS", "MS**14"} => Prefixable(rk))
   /\ (ca = "unit" => IsPickle(rt))
   /\ (rt = "savetxt" => ca = "array")
   /\ (rt = "string" => ca = "quantity")
@@ -380,8 +438,8 @@ PersistCase(rk, f, ca, rt) ==
 \* Predicted reading of the scale: "written", "stock" (the default table's value) or "raise".
 HasUserName(rk) == rk \in {"user", "userpfx", "usermod", "mixed"}
 \* from_string has a grammar of its own (letters, * / and integer powers): names with "_" or parentheses are refused
-PersistPredict(rk, rt) ==
-  IF IsPickle(rt) THEN "written"
+PersistPredict(rk, rt, f) ==
+  IF IsPickle(rt) \/ (f = "MS**14" /\ DefaultName(rk)) THEN "written"   \* (every reading of Mpc**14 is inf)
   ELSE IF rt = "string" THEN (IF HasUserName(rk) THEN "raise" ELSE "written")
   \* (today write_hdf5 drops re-valued default symbols - a known finding, P fails there; the prediction is the
   \* repaired behaviour so that the check is silent with the repair applied)
@@ -400,6 +458,13 @@ C20_NothingForeign(ev) == ev = <<>>
 \* --- spellings: every spelling of e yields a unit equal to [[e]] (dimension, scale within rounding - matched
 \* by the harness against the scale of [[e]] -, offset agreeing across spellings and, for a bare name, with the table)
 C20_SpellingOk(a, ob, first) ==
+  IF Extreme(a) THEN
+    \* the scale leaves the range of a double: the string is accepted or refused - by every spelling alike -,
+    \* an accepted one has the dimension of [[e]] (its scale may be inf, 0 or nan: "succeeds")
+    /\ C20_Total(ob.o)
+    /\ ob.o = first.o
+    /\ (ob.o = "Ok" => ob.dim = DimOfAst(a) /\ ob.off = first.off)
+  ELSE
   /\ ob.o = "Ok"
   /\ ob.dim = DimOfAst(a)
   /\ ob.sc
@@ -408,7 +473,10 @@ C20_SpellingOk(a, ob, first) ==
 
 \* --- re-readability: text printed for unit u parses back to an equal unit; identical when coefficient free.
 \* `u` and `r` are projections of the printed unit and of the re-read one.
-C20_RoundTripEqual(u, r) == r.o = "Ok" /\ r.dim = u.dim /\ r.off = u.off /\ r.sc
+\* `ext`: the tree is EXTREME (see Extreme): float arithmetic on units over/underflows at intermediate products
+\* (Gpc**7 * Gpc**-14 has scale 0.0, its text Gpc**(-7) reads 4e-179), so no numeric scale is demanded there - the
+\* text must still be readable and denote the same dimension and offset.
+C20_RoundTripEqual(u, r, ext) == r.o = "Ok" /\ r.dim = u.dim /\ r.off = u.off /\ (ext \/ r.sc)
 \* --- persistence: the re-read unit equals the written one (dimension, offset, scale).  `w`/`r` project the
 \* written and the re-read unit; r.sc says which scale the reader found ("written" / "stock" / "other").
 \* Text-only routes (savetxt -> loadtxt reads against the default table; to_string -> from_string is given the
